@@ -165,7 +165,7 @@ TwinCase(P, t) ==
 (***************************************************************************)
 (* C14: every codec feature in three file layouts.                         *)
 (***************************************************************************)
-Layouts == {"svc", "nosvc", "crossfile"}
+Layouts == {"svc", "nosvc", "crossfile", "nested"}
 CodecFeatures == Twins \ {"T_get_query", "T_plain"}
 C14Case(P, t, lay) ==
   LET types == <<Child(P), Child2(P)>> \o TwinMsgs(P, t)
@@ -178,6 +178,15 @@ C14Case(P, t, lay) ==
        [] lay = "crossfile" ->
             Schema(<<File(P \o "/types.proto", Pkg(P), GoPkg(P), TRUE, <<>>, <<>>, types, <<EnumE, EnumPlain>>),
                      File(P \o "/svc.proto", Pkg(P), GoPkg(P), TRUE, <<P \o "/types.proto">>, <<Svc(P, <<doW>>)>>, <<Out(P)>>, <<>>)>>)
+       \* the annotated message W nested inside an enclosing message that carries no annotation itself
+       [] lay = "nested" ->
+            LET tm == TwinMsgs(P, t)
+                inner == SelectSeq(tm, LAMBDA m : m.name = "W")
+                rest  == SelectSeq(tm, LAMBDA m : m.name # "W")
+                outer == MsgN("Outer", FN(P, "Outer"), <<F("label", "label", 1, "string", "one")>>,
+                              [i \in DOMAIN inner |-> [inner[i] EXCEPT !.full = FN(P, "Outer") \o ".W"]])
+            IN Schema(<<File(P \o "/svc.proto", Pkg(P), GoPkg(P), TRUE, <<>>, <<Svc(P, <<doIn>>)>>,
+                             <<In(P), Out(P), Child(P), Child2(P)>> \o rest \o <<outer>>, <<EnumE, EnumPlain>>)>>)
 
 (***************************************************************************)
 (* C15: multi-file base schemas whose output must not depend on request    *)
@@ -192,7 +201,9 @@ C15Case(P, t) ==
       lb == Msg("ListB", FN(P, "ListB"), <<Ann(F("vals", "vals", 1, "string", "rep"), "unwrap", TRUE)>>)
       ma == Msg("MapA", FN(P, "MapA"), <<FMap("by_a", "byA", 1, "string", "message", FN(P, "ListA")), FMap("by_b", "byB", 2, "string", "message", FN(P, "ListB"))>>)
       mb == Msg("MapB", FN(P, "MapB"), <<FMap("by_a", "byA", 1, "string", "message", FN(P, "ListA"))>>)
-      doA == MethodHeaders(Method("DoA", FN(P, "MapA"), FN(P, "MapB"), TRUE, Parts(TRUE, <<Lit("a")>>, FALSE), "POST"), H3)
+      hv  == <<Header("x-zeta", "string", "", TRUE), Header("X-ALPHA", "string", "", TRUE), Header("X-Mid", "string", "", TRUE),
+               Header("X-New", "string", "", FALSE), Header("x-new", "integer", "", FALSE)>>
+      doA == MethodHeaders(Method("DoA", FN(P, "MapA"), FN(P, "MapB"), TRUE, Parts(TRUE, <<Lit("a")>>, FALSE), "POST"), hv)
       doW == Method("DoW", FN(P, "W"), FN(P, "W"), TRUE, Parts(TRUE, <<Lit("w")>>, FALSE), "POST")
       s1 == WithHeaders(Service("SvcOne", TRUE, Parts(TRUE, <<Lit("one")>>, FALSE), <<doA, doW>>), H3)
       s2 == WithHeaders(Service("SvcTwo", FALSE, NoParts, <<Method("Other", FN(P, "MapB"), FN(P, "Out"), TRUE, Parts(TRUE, <<Lit("o")>>, FALSE), "POST")>>), H3)
@@ -333,6 +344,21 @@ C13PairCase(P, pr) ==
   IN Schema(<<File(P \o "/svc.proto", Pkg(P), GoPkg(P), TRUE, <<>>,
                    <<Svc(P, <<Method("Do", FN(P, "W"), FN(P, "W"), TRUE, Parts(TRUE, <<Lit("do")>>, FALSE), "POST")>>)>>,
                    <<Out(P), Child(P), w>>, <<EnumE, EnumPlain>>)>>)
+
+\* one service with ONE method: verb x path variable x query field x body field (what the
+\* emitted file imports / declares depends on which of these occur at all in the file)
+C13MethodShapes == {<<v, pv, q, b>> \in {"GET", "POST", "PUT", "DELETE", "PATCH", ""} \X BOOLEAN \X BOOLEAN \X BOOLEAN :
+                      (v \in {"GET", "DELETE"} => ~b) /\ (v = "" => ~pv)}
+C13MethodCase(P, t) ==
+  LET v == t[1] pv == t[2] q == t[3] b == t[4]
+      fs == (IF pv THEN <<F("id", "id", 1, "string", "one")>> ELSE <<>>)
+            \o (IF q THEN <<Ann(F("page", "page", 2, "int32", "one"), "query", TRUE)>> ELSE <<>>)
+            \o (IF b THEN <<F("note", "note", 3, "string", "one")>> ELSE <<>>)
+      me == IF v = "" THEN Method("Do", FN(P, "Rq"), FN(P, "Out"), FALSE, NoParts, "")
+            ELSE Method("Do", FN(P, "Rq"), FN(P, "Out"), TRUE,
+                        IF pv THEN Parts(TRUE, <<Lit("r"), Var("id")>>, FALSE) ELSE Parts(TRUE, <<Lit("r")>>, FALSE), v)
+  IN Schema(<<File(P \o "/svc.proto", Pkg(P), GoPkg(P), TRUE, <<>>, <<Service("Svc", FALSE, NoParts, <<me>>)>>,
+                   <<Out(P), Msg("Rq", FN(P, "Rq"), fs)>>, <<>>)>>)
 
 \* identifier shapes and service layouts
 C13Shapes == {"names", "keywords", "two_services_same_method", "two_services_headers", "no_services", "cross_file",
